@@ -7,7 +7,7 @@ TAGS = {"C11"}
 
 def plans(tier):
     two = ("train", "test")
-    M = ("-", "A", "B", "SA", "SB", "E")
+    M = ("-", "A", "B", "SA", "SB", "E", "NA", "NB")
     if tier == "thorough":
         return [
             dict(fmt="fb", eps=e, depth=4,
@@ -28,9 +28,9 @@ def plans(tier):
              letters(("train",), ("shape1",), ("A", "SB"))),
         dict(fmt="fb", eps=1, depth=4, letters=letters(("train",), ("ok",), M)),
         dict(fmt="fb", eps=3, depth=5,
-             letters=letters(("train",), ("ok",), ("-", "A", "SA", "SB"))),
+             letters=letters(("train",), ("ok",), ("-", "A", "SA", "NB"))),
         dict(fmt="npz", eps=2, depth=3,
-             letters=letters(("train",), ("ok",), ("-", "A", "SA", "SB"))),
+             letters=letters(("train",), ("ok",), ("-", "A", "NA", "NB"))),
         dict(fmt="tfrec", eps=2, depth=2,
              letters=letters(("train",), ("ok",), ("-", "A", "SB"))),
     ]
